@@ -1298,9 +1298,10 @@ class CodeGenerator(NodeVisitor):
         self.enter_frame(loop_frame)
 
         self.writeline("_loop_vars = {}")
-        self.blockvisit(node.body, loop_frame)
+        # An iteration that is left with break or continue took place too.
         if node.else_:
             self.writeline(f"{iteration_indicator} = 0")
+        self.blockvisit(node.body, loop_frame)
         self.outdent()
         if loop_filter_gen is not None:
             self.outdent()
